@@ -4,30 +4,6 @@ From Coq Require Import Strings.Byte.
 From GoBT Require Import lib.Bytes model.Tx model.SigHash model.ScriptNum model.Interp model.CheckSig.
 Import ListNotations.
 
-(** ** bytes.Contains *)
-Lemma is_prefix_spec n : forall h, is_prefix n h = true <-> exists b, h = n ++ b.
-Proof.
-  induction n as [|x n IH]; intros h; cbn [is_prefix].
-  - split; [intros _; exists h; reflexivity|reflexivity].
-  - destruct h as [|y h].
-    + split; [discriminate|intros [b Hb]; discriminate].
-    + rewrite andb_true_iff, byte_eqb_eq, IH. split.
-      * intros [-> [b ->]]. exists b. reflexivity.
-      * intros [b Hb]. cbn in Hb. inversion Hb; subst. split; [reflexivity|eauto].
-Qed.
-
-Lemma bytes_contains_spec h n : bytes_contains h n = true <-> exists a b, h = a ++ n ++ b.
-Proof.
-  induction h as [|y h IH]; cbn [bytes_contains]; rewrite orb_true_iff, is_prefix_spec.
-  - split.
-    + intros [[b Hb]|H]; [|discriminate]. exists [], b. exact Hb.
-    + intros (a & b & H). left. destruct a; [exists b; exact H|discriminate].
-  - rewrite IH. split.
-    + intros [[b Hb]|(a & b & ->)]; [exists [], b; exact Hb|exists (y :: a), b; reflexivity].
-    + intros (a & b & H). destruct a as [|z a]; [left; exists b; exact H|].
-      right. cbn in H. inversion H; subst. exists a, b. reflexivity.
-Qed.
-
 (** ** checkSignatureEncoding never indexes out of range *)
 From Coq Require Import ZifyN ZifyNat ZifyBool.
 
@@ -66,7 +42,7 @@ Proof.
     | |- (if ?b then at_ _ _ (fun s1 => if _ then EncErr else ?B) else ?B) <> EncPanic =>
         assert (HB : B <> EncPanic)
     end.
-    { step_if; [|discriminate]. step_if; [exfalso; lia|]. step_if; discriminate. }
+    { step_if; [|discriminate]. step_if; [exfalso; lia|]. step_if; [exfalso; lia|]. step_if; discriminate. }
     step_if; [|exact HB]. step_at. step_if; [discriminate|exact HB]. }
   step_if; [|exact HA]. step_at. step_if; [discriminate|exact HA].
 Qed.
